@@ -116,6 +116,17 @@ func Tables(repo string) (string, error) {
 	}
 	b.WriteString("]\n\n")
 
+	// Diff constants.
+	dn, dv := fw.ConstsOfType(p, "Diff")
+	b.WriteString("/-- `Diff` constants: (name, value). -/\ndef diffs : List (String × Nat) := [")
+	for i := range dn {
+		if i > 0 {
+			b.WriteString(", ")
+		}
+		fmt.Fprintf(&b, "(%s, %d)", fw.LeanStr(dn[i]), dv[i])
+	}
+	b.WriteString("]\n\n")
+
 	// operators: slice of maps keyed by System index.
 	ops := fw.FindVar(p, "operators")
 	ocl, ok := ops.(*ast.CompositeLit)
